@@ -127,6 +127,20 @@ pub fn run_history(case: &Json, policy: &Json) -> (Vec<String>, u64, u64) {
         if reuse_eval {
             let mut eval = Evaluator::new(&module);
             eval.set_print_handler(&printer);
+            // A profiler keeps values of the program too (function values, call trees): they are
+            // roots like any other. The profile text itself holds timings and is not compared.
+            let profile = match case["profile"].as_str().unwrap_or("") {
+                "TimeFlame" => Some(starlark::eval::ProfileMode::TimeFlame),
+                "HeapFlameAllocated" => Some(starlark::eval::ProfileMode::HeapFlameAllocated),
+                "HeapSummaryAllocated" => Some(starlark::eval::ProfileMode::HeapSummaryAllocated),
+                "HeapAllocated" => Some(starlark::eval::ProfileMode::HeapAllocated),
+                "Statement" => Some(starlark::eval::ProfileMode::Statement),
+                "Bytecode" => Some(starlark::eval::ProfileMode::Bytecode),
+                _ => None,
+            };
+            if let Some(m) = &profile {
+                let _ = eval.enable_profile(m);
+            }
             for (i, stmts) in evals.iter().enumerate() {
                 run_one(&mut eval, i, stmts);
                 if host_gc && policy["kind"] != "never" {
@@ -137,6 +151,17 @@ pub fn run_history(case: &Json, policy: &Json) -> (Vec<String>, u64, u64) {
                     counters.set((sp, gc + 1));
                 }
                 between(i);
+            }
+            if profile.is_some() {
+                match eval.gen_profile() {
+                    Ok(p) => {
+                        let flame = p.gen_flame_data().ok().flatten().map(|s| s.lines().count()).unwrap_or(0);
+                        let csv = p.gen_csv().map(|s| s.lines().count()).unwrap_or(0);
+                        let _ = (flame, csv);
+                        kit::ctx(|c| c.transcript.push("profile collected".to_owned()));
+                    }
+                    Err(e) => kit::ctx(|c| c.transcript.push(format!("profile error {e}"))),
+                }
             }
         } else {
             for (i, stmts) in evals.iter().enumerate() {
@@ -258,6 +283,7 @@ impl World for C03 {
             "reuse_evaluator": env.bool(),
             "host_sets": env.chance(3, 4),
             "host_gc": env.chance(1, 3),
+            "profile": *env.pick(&["", "", "", "TimeFlame", "HeapFlameAllocated", "HeapSummaryAllocated", "HeapAllocated", "Statement", "Bytecode"]),
             "quarantine": env.chance(2, 3),
             "policies": policies,
         })
